@@ -18,6 +18,7 @@ import (
 	"github.com/lmorg/murex/lang"
 	"github.com/lmorg/murex/lang/ref"
 	"github.com/lmorg/murex/lang/types"
+	"github.com/lmorg/murex/utils/cache"
 )
 
 var once sync.Once
@@ -32,6 +33,7 @@ func Init(dir string) {
 			os.Setenv("TMPDIR", dir)
 			os.Setenv("MUREX_CONFIG_DIR", dir)
 			os.Chdir(dir)
+			cache.SetPath(dir + "/cache.db")
 		}
 		defaults.Config(config.InitConf, false)
 		lang.InitEnv()
